@@ -162,6 +162,15 @@ Example C19_adaptor_brace_refuted :
 Proof. exact parse_top_refuted. Qed.
 Print Assumptions C19_adaptor_brace_refuted.
 
+(* ... and for the blob of a ROW whose element NAME holds colons (wf_top: as wf_node, the name in the top-level header
+   unrestricted apart from being plain text): the reader cuts the header  id:name:type  at every colon and keeps the first three
+   pieces -- top_pv_c says which name / type entries result; everything else is read as before. *)
+Theorem C19_adaptor_text_transparent_colon : forall n : wnode,
+  wf_top n = true -> nbq_node n = true -> quote_ok (print_node n) = true ->
+  parse_blob (py_str_bytes (print_node n)) = Some (top_pv_c n).
+Proof. exact parse_top_c. Qed.
+Print Assumptions C19_adaptor_text_transparent_colon.
+
 (* The structural level, for EVERY structured class diagram whose drawn blobs lie in the text domain (any nesting, any inert
    owned elements, reference lists and free text among the properties): loading the project the writer produces equals loading
    with ParseBLOB_Recursive replaced by the structural reading of the drawn blobs (struct_of).  What the loaded objects MEAN is
@@ -216,18 +225,19 @@ Print Assumptions C19_realised_from_project.
 (* Calibration and non-vacuity on the shipped project (Gen/UmlBlobShipped.v, regenerated from kojen/test/blob.xml on every
    run): the assumed writer reproduces every row the two class diagrams draw or refer to, byte for byte, between the rows of
    the other diagrams; the reader model loads both (10 and 20 classes, 7 inheritance entries each), also from the projects
-   holding only their own rows; 39 of 39 and 48 of 49 of their blobs lie in the domain of the text theorem (38 and 40 before the
-   reader was made quote-aware: the others hold an HTML documentation with a CSS block); the one outside is an association whose
-   NAME holds a colon (the header id:name:type is cut at every colon); on every blob inside, the reader model returns the
-   dictionary the theorem states (computed). *)
+   holding only their own rows; ALL 39 and 49 of their blobs lie in the domain of the text theorem (38 and 40 before the reader
+   was made quote-aware: the others hold an HTML documentation with a CSS block; 48 of 49 without the colon variant: one
+   association has a NAME with a colon); on every one of them the reader model returns the dictionary the theorem states
+   (computed). *)
 Theorem C19_adaptor_calibration :
   (forallb (chosts shipped_cdb) shipped_W = true /\ map wd_name shipped_W = ["ProtocolStack"; "TestClassDiagram"])
-  /\ (map (fun W => (List.length (all_nodes W), List.length (filter in_text_domain (all_nodes W)))) shipped_W = [(39, 39); (49, 48)]
+  /\ (map (fun W => (List.length (all_nodes W), List.length (filter in_text_domain_c (all_nodes W)), List.length (filter in_text_domain (all_nodes W)))) shipped_W
+      = [(39, 39, 39); (49, 49, 48)]
       /\ flat_map (fun W => map (fun n => (node_id n, node_name n)) (filter (fun n => negb (in_text_domain n)) (all_nodes W))) shipped_W
          = [("OUDfaI6GAqAA8xe8", Some "Const: This should appear in constructor")])
   /\ map (fun W => List.length (filter (fun n => wf_node n && nb_node n && no_char SQ (print_node n)) (all_nodes W))) shipped_W = [38; 40]
-  /\ forallb (fun W => forallb (fun n => match parse_blob (py_str_bytes (print_node n)) with Some v => pv_eqb v (top_pv n) | None => false end)
-                                (filter in_text_domain (all_nodes W))) shipped_W = true.
+  /\ forallb (fun W => forallb (fun n => match parse_blob (py_str_bytes (print_node n)) with Some v => pv_eqb v (top_pv_c n) | None => false end)
+                                (filter in_text_domain_c (all_nodes W))) shipped_W = true.
 Proof. exact (conj calib_cwriter (conj calib_domain (conj calib_domain_before calib_parse))). Qed.
 Print Assumptions C19_adaptor_calibration.
 
@@ -266,7 +276,8 @@ Print Assumptions C19_adaptor_source_shape.
    depend on the association type known when that end is read (written order), as Association.ParseAssociation does.
    Domain sdiagram_ok (boolean, extracted, evaluated by the harness on every generated diagram): names / ids plain, brace-free,
    without ',' and apostrophe, no blank at the ends; VALUES (defaults, initial values, multiplicities, modifiers, documentation)
-   likewise but ',' allowed (nullptr, nullptr) unless nothing but commas is left; ids and element names without ':'; noise keys not among the
+   likewise but ',' allowed (nullptr, nullptr) unless nothing but commas is left; ids and element names without ':' (the name of an
+   association may hold colons); noise keys not among the
    keys the reader looks for; no property key written twice; type names unchanged by CleanModifiersFromType; every referenced
    id known; every element drawn once; a class on at most one package path; package paths made of drawn packages. *)
 Theorem C19_adaptor_roundtrip : forall D : sdiagram, sdiagram_ok D = true ->
@@ -289,14 +300,14 @@ Print Assumptions C19_adaptor_roundtrip_hosted.
 (* Calibration of the semantic domain on the shipped project: both shipped class diagrams re-expressed as semantic diagrams
    (Gen/UmlSemShipped.v, regenerated on every run from what the real adaptor reads; the harness checks on every run that they
    mean the object graphs read from kojen/test/blob.xml): 20 / 10 classes, 3 / 2 packages, 8 / 1 associations, 7 / 7
-   inheritance entries, with defaults such as  nullptr, nullptr  and initial values such as  1.0, 2.0, 3.0 .  ProtocolStack lies
-   in the domain; TestClassDiagram lies in it except for ONE association whose NAME holds a colon. *)
+   inheritance entries, with defaults such as  nullptr, nullptr , initial values such as  1.0, 2.0, 3.0  and an association whose
+   name holds a colon.  BOTH lie in the domain of C19_adaptor_roundtrip.  (Their layout is the semantic writer's: the noise is
+   scalar properties; the nested model views, qualifiers, reference lists and HTML texts of the real rows are covered by the text
+   and structural theorems, C19_adaptor_calibration.) *)
 Theorem C19_adaptor_semantic_calibration :
   map sd_name shipped_sem = ["TestClassDiagram"; "ProtocolStack"]
   /\ map sem_counts shipped_sem = [(20, 3, 8, 7); (10, 2, 1, 7)]
-  /\ (map sdiagram_ok shipped_sem = [false; true]
-      /\ map (fun S => map snd (colon_named S)) shipped_sem = [["Const: This should appear in constructor"]; []]
-      /\ map (fun S => sdiagram_ok (fold_right (fun kn S' => without_shape (fst kn) S') S (colon_named S))) shipped_sem = [true; true]).
+  /\ (map sdiagram_ok shipped_sem = [true; true] /\ map colon_named shipped_sem = [["Const: This should appear in constructor"]; []]).
 Proof. exact (conj calib_sem_names (conj calib_sem_counts calib_sem_domain)). Qed.
 Print Assumptions C19_adaptor_semantic_calibration.
 
